@@ -46,7 +46,9 @@ def run(tier):
             big = fam in ("page", "varint")
             cases.append({"ops": riorun.concretize_ops(p, toks, rng), "comp": (bi + len(cases)) % 4, "wbuf": wbuf if wbuf > 1 or not big else 16,
                           "rbuf": rng.choice([16, 64, 4096, 0, 5]), "directio": False, "readprog": rng.choice([[0], [1, 0], [0, 1, 1], [0, 0, 1]]),
-                          "seekall": not big or rng.random() < 0.15, "seeks": [0, 8, 9, 100, 4095, 4096, 4097], "damage": ""})
+                          "seekall": not big or rng.random() < 0.15, "seeks": [0, 8, 9, 100, 4095, 4096, 4097], "damage": "",
+                          # every fifth program: the writer is built on an *os.File the caller opened (append mode / read-write / write-only + truncate)
+                          "wfile": ["append", "rdwr", "wronly"][len(cases) % 3] if len(cases) % 5 == 4 else ""})
         batches.append(("%s-w%d-%d" % (fam, wbuf, bi), recs, cases))
     # long files and big payloads, sampled seek offsets
     nlong = 6 if thorough else 2
